@@ -128,8 +128,15 @@ func (r *FuncResult) BuildReplay(o *Obligation) (plan *ReplayPlan) {
 		plan.Unsup = "no root information"
 		return
 	}
-	if o.Kind != "post" && o.Kind != "lemma" {
-		plan.Unsup = "replay is built for postconditions and lemmas only (kind " + o.Kind + ")"
+	safetyMsg := map[string]string{"safe:make": "makeslice", "safe:index": "index out of range", "safe:slice": "out of range",
+		"safe:nil": "nil pointer dereference", "safe:assert": "interface conversion", "safe:div": "divide by zero", "safe:panic": "", "safe:nilmap": "nil map"}
+	wantPanic, isSafety := safetyMsg[o.Kind]
+	if o.Kind != "post" && o.Kind != "lemma" && !isSafety {
+		plan.Unsup = "replay is built for postconditions, lemmas and panic-safety obligations only (kind " + o.Kind + ")"
+		return
+	}
+	if isSafety && ri.fn == nil {
+		plan.Unsup = "safety replay needs a function"
 		return
 	}
 	if ri.fn != nil && (len(ri.fn.FreeVars) > 0 || ri.fn.Parent() != nil) {
@@ -163,6 +170,19 @@ func (r *FuncResult) BuildReplay(o *Obligation) (plan *ReplayPlan) {
 	}
 	for i, rq := range fc.Requires {
 		fmt.Fprintf(&body, "\tif !(%s) {\n\t\tfmt.Println(\"REPLAY-PRECONDITION-FALSE %d\")\n\t\treturn\n\t}\n", g.expr(rq.E), i)
+	}
+	if isSafety {
+		// the refuted obligation says a run-time panic is reachable: call the real
+		// function on the model's input and look for that panic
+		fmt.Fprintf(&body, "\tfunc() {\n\t\tdefer func() {\n\t\t\tif r := recover(); r != nil {\n\t\t\t\tmsg := fmt.Sprint(r)\n\t\t\t\tif strings.Contains(msg, %q) {\n\t\t\t\t\tfmt.Println(\"REPLAY-CONFIRMED: the real code panics:\", msg)\n\t\t\t\t} else {\n\t\t\t\t\tfmt.Println(\"REPLAY-NOT-CONFIRMED: different panic:\", msg)\n\t\t\t\t}\n\t\t\t\treturn\n\t\t\t}\n\t\t\tfmt.Println(\"REPLAY-NOT-CONFIRMED: no panic on this input\")\n\t\t}()\n", wantPanic)
+		body.WriteString(strings.ReplaceAll(g.callRoot(ri), "\n\t", "\n\t\t"))
+		body.WriteString("\t}()\n")
+		plan.Imports["strings"] = true
+		plan.Body = body.String()
+		plan.Helpers = g.helpers.String()
+		plan.real = g.real
+		plan.q = q
+		return
 	}
 	// which clause failed?
 	var clause *Clause
@@ -544,6 +564,12 @@ func (g *goGen) leaves(path string, tm *smt.Term, t types.Type, st *State, depth
 		}
 		return
 	case *types.Pointer:
+		if g.typeStr(u.Elem()) == "bufio.Reader" {
+			g.plan.Imports["bufio"] = true
+			g.plan.Imports["strings"] = true
+			g.plan.Setup = append(g.plan.Setup, fmt.Sprintf("%s = bufio.NewReader(strings.NewReader(\"\")) // = new(", path))
+			return
+		}
 		// nested pointer: allocate and fill (assumed non-nil)
 		g.plan.Setup = append(g.plan.Setup, fmt.Sprintf("%s = new(%s)", path, g.typeStr(u.Elem())))
 		loc := &Loc{Ref: tm, RootTyp: u.Elem(), Typ: u.Elem()}
@@ -907,6 +933,8 @@ func (g *goGen) call(n *ECall) string {
 			return g.expr(n.Args[0]) + ".(" + n.Args[1].(*EString).V + ")"
 		case "dyntype":
 			return fmt.Sprintf("func() bool { _, ok := interface{}(%s).(%s); return ok }()", g.expr(n.Args[0]), n.Args[1].(*EString).V)
+		case "ghost":
+			return "0" // ghost state has no run-time counterpart
 		case "calls":
 			g.fail("calls() cannot be replayed yet")
 		}
